@@ -3,6 +3,9 @@
 #include "specpart.h"
 
 static PyObject * specpart(PyObject *self, PyObject *args);
+/* verification hook, inert unless WAVESPECTRA_VERIF=1 (defined in specpart.c) */
+void verif_wrap_event(const char *ev, long thr, int ccontig, int fcontig, int typenum, int itemsize,
+                      long d0, long d1, long s0, long s1);
 
 /* ==== Set up the methods table ====================== */
 static PyMethodDef specpart_methods[] = {
@@ -49,8 +52,12 @@ static PyObject * specpart(PyObject *self, PyObject *args)
   spec = (float *) PyArray_DATA(specin);
   ipart = (int *) PyArray_DATA(ipartout);
 
+  verif_wrap_event("wenter", (long) PyThread_get_thread_ident(), PyArray_IS_C_CONTIGUOUS(specin),
+                   PyArray_IS_F_CONTIGUOUS(specin), PyArray_TYPE(specin), (int) PyArray_ITEMSIZE(specin),
+                   (long) nk, (long) nth, (long) PyArray_STRIDES(specin)[0], (long) PyArray_STRIDES(specin)[1]);
   // Do the calculation
   partition(spec, ipart, nk, nth, ihmax);
+  verif_wrap_event("wexit", (long) PyThread_get_thread_ident(), 0, 0, 0, 0, (long) nk, (long) nth, 0, 0);
   
   
   /* Free memory, close file and return */
